@@ -1628,3 +1628,218 @@ impl Oracle for TxValidityOracle {
 		Ok(())
 	}
 }
+
+// -------------------------------------------------------------------------------------------------
+/// C07 (and the on-chain ends of C06/C08): after a unilateral close everything a node is entitled
+/// to is recovered: balances drain, nothing descending from the funding output is left unclaimed,
+/// each HTLC output goes to the party entitled to it, SpendableOutputs are really spendable, and
+/// (static channels) each party's recovered value equals its entitlement less its own fees.
+pub struct OnChainOracle {
+	pub chans: Vec<ChanInfo>,
+	/// commitment txid -> (chan, side of broadcaster, info)
+	commits: BTreeMap<bitcoin::Txid, (usize, usize, CommitInfo)>,
+	keys: BTreeMap<(u8, [u8; 32]), (usize, usize)>,
+	/// txid -> node that broadcast it first
+	pub broadcaster_of: BTreeMap<bitcoin::Txid, usize>,
+	pub max_total_claimable_seen: u64,
+	pub exact_entitlement: bool,
+}
+
+impl OnChainOracle {
+	pub fn new(w: &World, chans: Vec<ChanInfo>) -> Self {
+		let mut o = OnChainOracle {
+			chans,
+			commits: BTreeMap::new(),
+			keys: BTreeMap::new(),
+			broadcaster_of: BTreeMap::new(),
+			max_total_claimable_seen: 0,
+			exact_entitlement: true,
+		};
+		let setup: Vec<Obs> = w.obs.clone();
+		o.scan(&setup);
+		o
+	}
+	fn scan(&mut self, obs: &[Obs]) {
+		for o in obs {
+			match o {
+				Obs::Sig(SigEv::SignCounterpartyCommitment { node, keys_id, info }) => {
+					let n = (*node - b'A') as usize;
+					if !self.keys.contains_key(&(*node, *keys_id)) {
+						if let Some(fo) = info.funding_outpoint {
+							for ci in 0..self.chans.len() {
+								if self.chans[ci].funding == Some(fo) {
+									if let Some(s) = self.chans[ci].nodes.iter().position(|x| *x == n) {
+										self.keys.insert((*node, *keys_id), (ci, s));
+									}
+								}
+							}
+						}
+					}
+					if let Some((ci, s)) = self.keys.get(&(*node, *keys_id)) {
+						// the signer signs the *peer's* commitment: broadcaster side = 1 - s
+						self.commits.insert(info.txid, (*ci, 1 - *s, info.clone()));
+					}
+				},
+				Obs::Broadcast { node, b, .. } => {
+					for tx in b.txs.iter() {
+						self.broadcaster_of.entry(tx.compute_txid()).or_insert(*node);
+					}
+				},
+				_ => {},
+			}
+		}
+	}
+}
+
+impl Oracle for OnChainOracle {
+	fn name(&self) -> &'static str {
+		"on-chain-recovery"
+	}
+	fn observe(&mut self, w: &World, obs: &[Obs]) -> Result<(), Failure> {
+		self.scan(obs);
+		// claimable balances never add up to more than the channel is worth (no double counting)
+		if obs.iter().any(|o| matches!(o, Obs::Persist { .. })) {
+			for ci in 0..self.chans.len() {
+				let mut total = 0u64;
+				for &n in self.chans[ci].nodes.iter() {
+					for b in w.nodes[n].mon.get_claimable_balances(&[]) {
+						total += b.claimable_amount_satoshis();
+					}
+				}
+				self.max_total_claimable_seen = self.max_total_claimable_seen.max(total);
+				if self.chans.len() == 1 && total > self.chans[ci].params.value_sat {
+					return Err(Failure::new(
+						"claimable-balances",
+						format!("claimable balances of both parties add up to {} sat for a channel worth {} sat", total, self.chans[ci].params.value_sat),
+					));
+				}
+			}
+		}
+		Ok(())
+	}
+	fn at_end(&mut self, w: &mut World) -> Result<String, Failure> {
+		use lightning::util::wallet_utils::WalletSourceSync;
+		let fail = |d: String| Failure::new("on-chain-recovery", d);
+		let mut label = String::new();
+		for ci in 0..self.chans.len() {
+			let fo = match self.chans[ci].funding {
+				Some(f) => bitcoin::OutPoint { txid: f.0, vout: f.1 as u32 },
+				None => continue,
+			};
+			let (ctxid, _) = match w.chain.spent_by.get(&fo) {
+				Some(x) => *x,
+				None => {
+					label.push_str("open;");
+					continue;
+				},
+			};
+			crate::runner::witness("c07-channel-closed-on-chain");
+			// 1. balances drained
+			for &n in self.chans[ci].nodes.iter() {
+				let bals = w.nodes[n].mon.get_claimable_balances(&[]);
+				let left: u64 = bals.iter().map(|b| b.claimable_amount_satoshis()).sum();
+				if left > 0 {
+					return Err(fail(format!("node {} still reports {} sat of claimable balances after full resolution: {:?}", n, left, bals)));
+				}
+			}
+			// 2. nothing descending from the funding output is left unclaimed
+			let sweep: Vec<bitcoin::ScriptBuf> = (0..w.nodes.len()).map(|n| w.sweep_script(n)).collect();
+			let wallet: Vec<bitcoin::ScriptBuf> = (0..w.nodes.len()).map(|n| w.nodes[n].wallet.get_change_script().unwrap()).collect();
+			let mut desc: std::collections::BTreeSet<bitcoin::Txid> = std::collections::BTreeSet::new();
+			desc.insert(ctxid);
+			for b in w.chain.blocks.iter() {
+				for tx in b.txdata.iter() {
+					if tx.input.iter().any(|i| desc.contains(&i.previous_output.txid)) {
+						desc.insert(tx.compute_txid());
+					}
+				}
+			}
+			let mut recovered = vec![0u64; w.nodes.len()];
+			for txid in desc.iter() {
+				let tx = &w.chain.tx_store[txid];
+				for (v, o) in tx.output.iter().enumerate() {
+					let op = bitcoin::OutPoint { txid: *txid, vout: v as u32 };
+					if !w.chain.utxos.contains_key(&op) {
+						continue; // spent
+					}
+					if let Some(n) = sweep.iter().position(|s| *s == o.script_pubkey) {
+						recovered[n] += o.value.to_sat();
+						continue;
+					}
+					if wallet.iter().any(|s| *s == o.script_pubkey) {
+						continue;
+					}
+					if o.value.to_sat() <= 330 {
+						continue; // anchor output left for anyone
+					}
+					return Err(fail(format!(
+						"output {}:{} worth {} sat descending from the channel's funding was never claimed by anybody",
+						txid, v, o.value.to_sat()
+					)));
+				}
+			}
+			// 3. HTLC outputs of the confirmed commitment went to the entitled party
+			if let Some((_, bside, info)) = self.commits.get(&ctxid).cloned() {
+				let bnode = self.chans[ci].nodes[bside];
+				let onode = self.chans[ci].nodes[1 - bside];
+				let mut entitled = vec![0u64; w.nodes.len()];
+				let dust = self.chans[ci].params.dust_limit_sat[bside];
+				if info.to_broadcaster_sat >= dust {
+					entitled[bnode] += info.to_broadcaster_sat;
+				}
+				if info.to_countersignatory_sat >= dust {
+					entitled[onode] += info.to_countersignatory_sat;
+				}
+				for h in info.htlcs.iter() {
+					let (offered_by_broadcaster, amt_msat, _cltv, hash, idx) = (h.0, h.1, h.2, h.3, h.4);
+					let idx = match idx {
+						Some(i) => i,
+						None => continue,
+					};
+					let offerer = if offered_by_broadcaster { bnode } else { onode };
+					let recipient = if offered_by_broadcaster { onode } else { bnode };
+					let op = bitcoin::OutPoint { txid: ctxid, vout: idx };
+					let spender = match w.chain.spent_by.get(&op) {
+						Some((t, _)) => *t,
+						None => return Err(fail(format!("HTLC output {} of the confirmed commitment was never spent", idx))),
+					};
+					let by = self.broadcaster_of.get(&spender).copied();
+					let knows = w.payments.iter().any(|p| p.hash.0 == hash && p.claimed_by_recipient);
+					let winner = if knows { recipient } else { offerer };
+					if by != Some(winner) {
+						return Err(fail(format!(
+							"HTLC output of {} msat (recipient {} the preimage) was spent by node {:?}, entitled party is node {}",
+							amt_msat,
+							if knows { "knows" } else { "does not know" },
+							by,
+							winner
+						)));
+					}
+					entitled[winner] += amt_msat / 1000;
+					crate::runner::witness(if knows { "c07-htlc-claimed-with-preimage-on-chain" } else { "c07-htlc-timed-out-on-chain" });
+				}
+				// 4. static channels: recovered + own fees = entitlement (exactly)
+				if self.exact_entitlement && self.chans[ci].params.chan_type == ChanType::StaticRemoteKey {
+					for &n in self.chans[ci].nodes.iter() {
+						let own_fees: u64 = desc
+							.iter()
+							.filter(|t| **t != ctxid && self.broadcaster_of.get(*t) == Some(&n) || w.swept_txs.iter().any(|(sn, st)| *sn == n && st.compute_txid() == **t))
+							.map(|t| w.chain.fees.get(t).copied().unwrap_or(0))
+							.sum();
+						if recovered[n] + own_fees != entitled[n] {
+							return Err(fail(format!(
+								"node {} recovered {} sat and paid {} sat in fees, but was entitled to {} sat of the closed channel",
+								n, recovered[n], own_fees, entitled[n]
+							)));
+						}
+					}
+					crate::runner::witness("c07-entitlement-exact");
+				}
+				label.push_str(&format!("closed-by{}:{:?};", bnode, recovered));
+			} else {
+				label.push_str("closed-coop-or-unknown;");
+			}
+		}
+		Ok(label)
+	}
+}
